@@ -17,6 +17,8 @@ let table : (string * ((Model.z list -> Model.z list) * (Model.z list -> Model.z
   ("C02", (Model.run_ipam, Model.chk_c02));
   ("C03", (Model.run_ipam, Model.chk_c03));
   ("C08", (Model.run_ipam, Model.chk_c08));
+  ("C10", (Model.run_pe, Model.chk_c10));
+  ("C11", (Model.run_pe, Model.chk_c11));
 ]
 
 (* optional diagnostics: which clause of the property failed *)
@@ -30,4 +32,6 @@ let why : (string * (Model.z list -> Model.z list -> Model.z)) list = [
   ("C02", Model.why_ipam (Model.Zpos (Model.XO Model.XH)));
   ("C03", Model.why_ipam (Model.Zpos (Model.XI Model.XH)));
   ("C08", Model.why_ipam (Model.Zpos (Model.XO (Model.XO (Model.XO Model.XH)))));
+  ("C10", Model.why_pe (Model.Zpos (Model.XO (Model.XI (Model.XO Model.XH)))));
+  ("C11", Model.why_pe (Model.Zpos (Model.XI (Model.XI (Model.XO Model.XH)))));
 ]
